@@ -63,3 +63,7 @@ def run(ctx):
     ctx.sample({"type": events[50]["ty"], "variant": events[50]["case"]["variant"], "value": work[50][0]["val"]})
     hdr = {"schema": jsontree.schema_for_tla(msgev.world()["schema"])}
     ctx.validate("Trace_Json", events, header=hdr, shard=1500, weight=lambda e: 1 + len(str(e["tree"])) // 2000)
+
+
+def redrive(ev):
+    return rtjson_event(({"ty": ev["ty"], "val": ev["val"], "tag": ev.get("case", {}).get("tag", "")}, tuple(ev["case"]["variant"])))
